@@ -929,6 +929,11 @@ func (tkn *Tokenizer) scanString(delim uint16, typ int) (int, []byte) {
 				continue
 			}
 			if decodedChar := sqltypes.SQLDecodeMap[byte(tkn.lastChar)]; decodedChar == sqltypes.DontEscape {
+				if tkn.lastChar == '%' || tkn.lastChar == '_' {
+					// \% and \_ keep their backslash: they stand for a literal % or _ in a LIKE pattern,
+					// and for these two characters together anywhere else
+					buffer.WriteByte('\\')
+				}
 				ch = tkn.lastChar
 			} else {
 				ch = uint16(decodedChar)
